@@ -27,8 +27,55 @@ def binNat (f : Int → Nat → Option Int) (args : List String) : String :=
     | _, _ => "bad-op"
   | _ => "bad-op"
 
+open Chain in
+def parseCOp : String → Option COp
+  | "add" => some .add | "sub" => some .sub | "mul" => some .mul | "quo" => some .quo
+  | "mulTruncate" => some .mulTruncate | "mulRoundUp" => some .mulRoundUp
+  | "quoTruncate" => some .quoTruncate | "quoRoundUp" => some .quoRoundUp
+  | "neg" => some .neg | "abs" => some .abs | "ceil" => some .ceil | "clone" => some .clone
+  | "truncateDec" => some .truncateDec | "chopPrecision" => some .chopPrecision | "powerInteger" => some .powerInteger
+  | "addMut" => some .addMut | "subMut" => some .subMut | "mulMut" => some .mulMut | "quoMut" => some .quoMut
+  | "quoTruncateMut" => some .quoTruncateMut | "quoRoundUpMut" => some .quoRoundUpMut
+  | "quoRoundUpNextIntMut" => some .quoRoundUpNextIntMut
+  | "negMut" => some .negMut | "absMut" => some .absMut | "ceilMut" => some .ceilMut
+  | "chopPrecisionMut" => some .chopPrecisionMut | "powerIntegerMut" => some .powerIntegerMut
+  | _ => none
+
+def parseInts : List String → Option (List Int)
+  | [] => some []
+  | s :: t => match s.toInt?, parseInts t with
+    | some x, some r => some (x :: r)
+    | _, _ => none
+
+/-- steps: groups of four tokens `op dst r a` -/
+def parseSteps : List String → Option (List (Chain.COp × Nat × Nat × Int))
+  | [] => some []
+  | o :: d :: r :: a :: rest =>
+    match parseCOp o, d.toNat?, r.toNat?, a.toInt?, parseSteps rest with
+    | some o, some d, some r, some a, some t => some ((o, d, r, a) :: t)
+    | _, _, _, _, _ => none
+  | _ => none
+
+/-- `chain k v0 … v(k-1) op dst r a …` → `ok v0 … v(k-1)` (final pool) or `panic i`. -/
+def chainLine (args : List String) : String :=
+  match args with
+  | k :: rest =>
+    match k.toNat? with
+    | some k =>
+      match parseInts (rest.take k), parseSteps (rest.drop k) with
+      | some pool, some steps =>
+        if pool.length = k then
+          match Chain.run pool steps 0 with
+          | .inl p => " ".intercalate ("ok" :: p.map toString)
+          | .inr i => s!"panic {i}"
+        else "bad-op"
+      | _, _ => "bad-op"
+    | none => "bad-op"
+  | _ => "bad-op"
+
 def stepNum (op : String) (args : List String) : String :=
   match op with
+  | "chain" => chainLine args
   | "add" => bin BigDec.add args
   | "sub" => bin BigDec.sub args
   | "mul" => bin BigDec.mul args
